@@ -139,9 +139,10 @@ func mustFollow(from ssa.Instruction, ev func(ssa.Instruction) bool) bool {
 }
 
 func runC17(c *core.Ctx) {
-	c.Explanation = "Structural necessary conditions of the header store laws, decided on SSA: (hdr.canon) the assigned-key set (headerKeyStore) is indexed, in IsAssigned, Assign and Unassign alike, only with the result of one canonicaliser applied to the name (net/http canonicalises header names, so set/unset under different spellings must hit the same bookkeeping key), and the set is touched nowhere else; (hdr.pair) on the VCL-visible write paths of interpreter/variable every Header.Del(k) is followed on all paths to the exit by Unassign(k) (or a Set/Add of the same k), and every Header.Set/Add(k, v) by Assign(k) — otherwise a header reads as set after unset, or as not set after `set … = \"\"`; (hdr.wild) a loop over the canonical keys of Header that compares a key with a name taken from VCL does so case-insensitively / after canonicalising the name; (hdr.sep) getters and setters of one object use the same sub-field separator constant. Decides the pairing/keying shape for all operation sequences; not the regular-expression sub-field algebra."
+	c.Explanation = "Structural necessary conditions of the header store laws, decided on SSA: (hdr.canon) the assigned-key set (headerKeyStore) is indexed, in IsAssigned, Assign and Unassign alike, only with the result of one canonicaliser applied to the name (net/http canonicalises header names, so set/unset under different spellings must hit the same bookkeeping key), and the set is touched nowhere else; (hdr.pair) on the VCL-visible write paths of interpreter/variable every Header.Del(k) is followed on all paths to the exit by Unassign(k) (or a Set/Add of the same k), and every Header.Set/Add(k, v) by Assign(k) — otherwise a header reads as set after unset, or as not set after `set … = \"\"`; (hdr.wild) a loop over the canonical keys of Header that compares a key with a name taken from VCL does so case-insensitively / after canonicalising the name; (hdr.namecase) the header helpers of interpreter/variable never compare the name (as the program spelled it) with a constant case-sensitively; (hdr.sep) getters and setters of one object use the same sub-field separator constant. Decides the pairing/keying shape for all operation sequences; not the regular-expression sub-field algebra."
 	c.NotCovered = []string{"the regular-expression sub-field algebra of GetField/setField/unsetField", "value truncation at newline beyond the flow of strings.Cut into Header.Set", "cookie sub-fields (request Cookie header is rewritten by its own helpers)"}
 	prog := c.Prog
+	checkHeaderNameCase(c)
 
 	// ---- hdr.canon
 	used := map[string]string{}
@@ -584,4 +585,84 @@ func keysOf(m map[string]bool) []string {
 	}
 	sortStrings(out)
 	return out
+}
+
+// checkHeaderNameCase (hdr.namecase): header names are case-insensitive, and a name reaches the header helpers as the
+// program spelled it (`req.http.cookie:b`). In the helpers of interpreter/variable that take an HTTP object and a
+// name, a name (or a piece cut from it) is never compared with a constant by == / != / switch: strings.EqualFold or
+// a canonicalised value must be used, otherwise `unset req.http.cookie:b` takes another branch than
+// `unset req.http.Cookie:b`.
+func checkHeaderNameCase(c *core.Ctx) {
+	prog := c.Prog
+	n := 0
+	for _, fn := range prog.ModuleFuncs("interpreter/variable") {
+		if len(fn.Params) < 2 {
+			continue
+		}
+		hasHTTP := false
+		var names []*ssa.Parameter
+		for _, p := range fn.Params {
+			tn := core.NamedTypePkgName(derefType(p.Type()))
+			if strings.HasSuffix(tn, "/http.Request") || strings.HasSuffix(tn, "/http.Response") || tn == "net/http.Header" {
+				hasHTTP = true
+			}
+			if bt, ok := p.Type().Underlying().(*types.Basic); ok && bt.Kind() == types.String && p.Name() == "name" {
+				names = append(names, p)
+			}
+		}
+		if !hasHTTP || len(names) == 0 {
+			continue
+		}
+		n++
+		bad := 0
+		for _, b := range fn.Blocks {
+			for _, in := range b.Instrs {
+				bo, ok := in.(*ssa.BinOp)
+				if !ok || (bo.Op != token.EQL && bo.Op != token.NEQ) {
+					continue
+				}
+				var other ssa.Value
+				var kc *ssa.Const
+				if k, ok := bo.Y.(*ssa.Const); ok {
+					kc, other = k, bo.X
+				} else if k, ok := bo.X.(*ssa.Const); ok {
+					kc, other = k, bo.Y
+				}
+				if kc == nil || kc.Value == nil || kc.Value.Kind() != constant.String || constant.StringVal(kc.Value) == "" {
+					continue
+				}
+				// letters in the constant: only then does case matter
+				lit := constant.StringVal(kc.Value)
+				if strings.ToLower(lit) == strings.ToUpper(lit) {
+					continue
+				}
+				// the other side derives from the name without a case normalisation on the way
+				fromName, normalised := false, false
+				for x := range core.BackSlice(other) {
+					for _, p := range names {
+						if x == ssa.Value(p) {
+							fromName = true
+						}
+					}
+					if call, ok := x.(*ssa.Call); ok {
+						if cal := call.Common().StaticCallee(); cal != nil {
+							switch cal.Name() {
+							case "ToLower", "ToUpper", "CanonicalHeaderKey", "CanonicalMIMEHeaderKey", "Title":
+								normalised = true
+							}
+						}
+					}
+				}
+				if !fromName || normalised {
+					continue
+				}
+				bad++
+				c.Report("hdr.namecase", fmt.Sprintf("%s|%q", core.FnName(fn), lit), in.Pos(), fmt.Sprintf("%s compares the header name (as the program spelled it) with %q by %s: header names are case-insensitive, so another spelling of the same header takes the other branch (`unset req.http.cookie:b` no longer removes the cookie)", core.FnName(fn), lit, bo.Op))
+			}
+		}
+		if bad == 0 {
+			c.Discharge("hdr.namecase", core.FnName(fn), fn.Pos(), "no case-sensitive comparison of the header name with a constant")
+		}
+	}
+	c.Floor("hdr.namecase", 8)
 }
